@@ -1,11 +1,15 @@
 (* C17 proofs, part 5: the windows of cli/inputs.go.
    - a window that starts at byte s and is cut after byte t of the input gives the same report as the whole
-     input (same excerpt, same column, line number shifted by the LFs before s) when every CR is followed
-     by LF, the window starts >= 52 bytes before the offending byte (or at 0) and extends >= 64 bytes after;
+     input (same excerpt, same column, line number shifted by [terms_before c s], the number of line terminators
+     LF / CR LF / CR that end before s) when the window starts >= 52 bytes before the offending byte (or at 0)
+     and extends >= 64 bytes after; NO hypothesis on the terminators, the window may even start with the LF of a
+     CR LF pair (the code never produces such a window, see [keep_cr_ok]);
+   - countNewlines of a dropped chunk = terms_before, provided the chunk does not end with the CR of a CR LF
+     pair, which `if n > 0 && buf[n-1] == 13 { n-- }` guarantees;
    - the seekable path (getContents' loop) always produces such a window;
    - the non-seekable path has the right line number whenever the offending byte was not discarded. *)
 From Coq Require Import List ZArith NArith Bool Lia.
-From Verif Require Import c17.ErrPos c17.Spec c17.Window c17.ScanProofs c17.TrimProofs c17.PostProofs.
+From Verif Require Import c17.ErrPos c17.Spec c17.Window c17.ScanProofs c17.TrimProofs c17.PostProofs c17.ErrPosProofs.
 Import ListNotations.
 Open Scope Z_scope.
 
@@ -33,26 +37,116 @@ Proof.
   cbn [skipn]. apply IH. cbn [crlf_only] in H. apply andb_true_iff in H. tauto.
 Qed.
 
-Lemma count_lf_before_extent : forall rest s, (s < line_extent rest)%nat -> count_lf (firstn s rest) = 0.
+(* ---- terms_before: the specification's count of the terminators before a position --------------------------- *)
+Lemma terms_before_add : forall c a b,
+  terms_before c (a + b) = terms_before c a + terms_before (skipn a c) b.
+Proof.
+  induction c as [|x r IH]; intros a b.
+  - destruct a, b; reflexivity.
+  - destruct a as [|a]; [cbn [Nat.add terms_before skipn]; lia|].
+    cbn [Nat.add terms_before skipn]. rewrite IH. lia.
+Qed.
+
+Lemma terms_before_0 : forall c, terms_before c 0 = 0.
+Proof. destruct c; reflexivity. Qed.
+
+Lemma terms_before_over : forall c n, (length c <= n)%nat -> terms_before c n = terms_before c (length c).
+Proof.
+  induction c as [|x r IH]; intros n H; [destruct n; reflexivity|].
+  destruct n as [|n]; [cbn in H; lia|]. cbn [length terms_before]. cbn [length] in H. rewrite (IH n) by lia. reflexivity.
+Qed.
+
+Lemma locate_terms : forall c ln cur k o, fst (fst (locate ln cur k c o)) = ln + terms_before c o.
+Proof.
+  induction c as [|b r IH]; intros ln cur k o; destruct o as [|o]; cbn [locate terms_before fst]; try lia.
+  destruct (b =? 10)%N; [rewrite IH; lia|]. destruct (b =? 13)%N; [|rewrite IH; lia].
+  rewrite !match_lf. destruct (starts_lf r); rewrite IH; lia.
+Qed.
+
+Lemma spec_line_terms : forall c o, spec_line c o = 1 + terms_before c o.
+Proof. intros. unfold spec_line. apply locate_terms. Qed.
+
+Lemma terms_before_in_line : forall rest s, (s < line_extent rest)%nat -> terms_before rest s = 0.
 Proof.
   induction rest as [|b r IH]; intros s H; [cbn in H; lia|].
-  destruct s as [|s]; [reflexivity|]. cbn [firstn count_lf]. cbn [line_extent] in H.
+  destruct s as [|s]; [reflexivity|]. cbn [terms_before]. cbn [line_extent] in H.
   destruct (b =? 10)%N; [lia|]. destruct (b =? 13)%N.
-  - rewrite match_lf in H. destruct (starts_lf r) eqn:S; [|lia].
-    assert (s = 0)%nat by lia. subst. reflexivity.
+  - rewrite match_lf in *. destruct (starts_lf r) eqn:S; [|lia].
+    assert (s = 0)%nat by lia. subst. destruct r; reflexivity.
   - rewrite IH by lia. reflexivity.
 Qed.
 
-Lemma count_lf_extent : forall rest, crlf_only rest = true -> (line_extent rest < length rest)%nat ->
-  count_lf (firstn (line_extent rest) rest) = 1.
+Lemma terms_before_extent : forall rest, (line_extent rest < length rest)%nat ->
+  terms_before rest (line_extent rest) = 1.
 Proof.
-  induction rest as [|b r IH]; intros C H; [cbn in H; lia|].
-  cbn [line_extent] in *. cbn [crlf_only] in C. apply andb_true_iff in C. destruct C as [C1 C2].
-  destruct (b =? 10)%N eqn:E10; [cbn [firstn count_lf]; rewrite E10; reflexivity|].
+  induction rest as [|b r IH]; intros H; [cbn in H; lia|].
+  cbn [line_extent] in *.
+  destruct (b =? 10)%N eqn:E10; [cbn [terms_before]; rewrite E10; destruct r; reflexivity|].
   destruct (b =? 13)%N eqn:E13.
-  - rewrite match_lf in *. destruct (starts_lf r) eqn:S; [|discriminate].
-    destruct (starts_lf_true _ S) as [r' ->]. cbn [firstn count_lf]. rewrite E10. reflexivity.
-  - cbn [firstn count_lf]. rewrite E10. cbn [length] in H. rewrite IH; [reflexivity|assumption|lia].
+  - rewrite match_lf in *. destruct (starts_lf r) eqn:S.
+    + destruct (starts_lf_true _ S) as [r' ->]. cbn [terms_before]. rewrite E10, E13. cbn. destruct r'; reflexivity.
+    + cbn [terms_before]. rewrite E10, E13, match_lf, S. destruct r; reflexivity.
+  - cbn [terms_before]. rewrite E10, E13. cbn [length] in H. rewrite IH by lia. reflexivity.
+Qed.
+
+Lemma starts_lf_firstn : forall m r, (1 <= m)%nat -> starts_lf (firstn m r) = starts_lf r.
+Proof. intros m r H. destruct m as [|m]; [lia|]. destruct r; reflexivity. Qed.
+
+(* ---- countNewlines (the code) against terms_before (the specification) --------------------------------------- *)
+Lemma countNewlines_terms : forall s, countNewlines s = terms_before s (length s).
+Proof.
+  unfold countNewlines. induction s as [|b r IH]; [reflexivity|].
+  cbn [count_byte count_crlf length terms_before]. rewrite <- IH.
+  destruct (N.eqb_spec b 10) as [->|N10]; [change (10 =? 13)%N with false; cbv iota; lia|].
+  destruct (b =? 13)%N; cbv iota; [|lia]. rewrite !match_lf. destruct (starts_lf r); cbv iota; lia.
+Qed.
+
+(* position n of c separates the CR and the LF of a CR LF pair *)
+Definition splits_crlf (c : list N) (n : nat) : bool :=
+  match n with O => false | S m => (nth m c 0 =? 13)%N && (nth n c 0 =? 10)%N end.
+
+Lemma starts_lf_nth : forall r, starts_lf r = (nth 0 r 0 =? 10)%N.
+Proof. intros r. destruct r as [|[|q] r']; reflexivity. Qed.
+
+Lemma terms_before_firstn : forall c n, splits_crlf c n = false ->
+  terms_before (firstn n c) n = terms_before c n.
+Proof.
+  induction c as [|b r IH]; intros n H; [destruct n; reflexivity|].
+  destruct n as [|m]; [reflexivity|]. cbn [firstn terms_before].
+  assert (T : terms_before (firstn m r) m = terms_before r m).
+  { apply IH. destruct m as [|m']; [reflexivity|exact H]. }
+  rewrite T. destruct (b =? 10)%N; [reflexivity|]. destruct (b =? 13)%N eqn:E13; [|reflexivity].
+  rewrite !match_lf. destruct m as [|m'].
+  - cbn [firstn starts_lf]. cbn [splits_crlf nth] in H. rewrite E13 in H. cbn [andb] in H.
+    rewrite starts_lf_nth, H. reflexivity.
+  - rewrite starts_lf_firstn by lia. reflexivity.
+Qed.
+
+(* the lines the repaired code adds for a dropped chunk of n bytes *)
+Lemma dropped_terms : forall c n, splits_crlf c n = false ->
+  countNewlines (firstn n c) = terms_before c n.
+Proof.
+  intros c n H. rewrite countNewlines_terms, <- (terms_before_firstn c n H).
+  symmetry. apply terms_before_over. rewrite firstn_length. lia.
+Qed.
+
+(* `if n > 0 && buf[n-1] == 13 { n-- }`: at most one byte is kept back, and the new end of the dropped bytes does
+   not separate a CR from its LF — whatever follows buf in the input ([tl]), also when the byte before is another CR *)
+Lemma keep_cr_ok : forall n buf, 0 <= n <= zlen buf ->
+  let n' := keep_cr n buf in
+  n - 1 <= n' <= n /\ 0 <= n' /\ forall tl, splits_crlf (buf ++ tl) (Z.to_nat n') = false.
+Proof.
+  intros n buf Hn. unfold zlen in Hn. unfold keep_cr. cbv zeta.
+  destruct (Z.ltb_spec 0 n) as [P|P]; cbn [andb].
+  - unfold zidx. destruct (N.eqb_spec (nth (Z.to_nat (n - 1)) buf 0%N) 13) as [C|C].
+    + split; [lia|]. split; [lia|]. intros tl. unfold splits_crlf.
+      destruct (Z.to_nat (n - 1)) as [|k] eqn:K; [reflexivity|].
+      rewrite (app_nth1 buf tl 0%N (n := S k)) by lia. rewrite C. apply andb_false_r.
+    + split; [lia|]. split; [lia|]. intros tl. unfold splits_crlf.
+      replace (Z.to_nat n) with (S (Z.to_nat (n - 1))) by lia.
+      rewrite (app_nth1 buf tl 0%N (n := Z.to_nat (n - 1))) by lia.
+      apply N.eqb_neq in C. rewrite C. reflexivity.
+  - split; [lia|]. split; [lia|]. intros. replace (Z.to_nat n) with 0%nat by lia. reflexivity.
 Qed.
 
 (* a terminator exists when something follows the first line *)
@@ -101,22 +195,21 @@ Qed.
 
 (* ---- window start ------------------------------------------------------------------------------------------ *)
 Lemma locate_window : forall n rest s o ln, (length rest <= n)%nat -> (s <= o)%nat -> (o < length rest)%nat ->
-  crlf_only rest = true ->
   let '(L, cur, k) := locate ln rest 0 rest o in
   let '(L', cur', k') := locate 1 (skipn s rest) 0 (skipn s rest) (o - s) in
-  L = ln + (L' - 1) + count_lf (firstn s rest) /\
+  L = ln + (L' - 1) + terms_before rest s /\
   (((s <= o - k)%nat /\ cur' = cur /\ k' = k) \/
    ((o - k < s)%nat /\ k' = (o - s)%nat /\ (k' = k - (s - (o - k)))%nat /\
     take_line cur' = skipn (s - (o - k)) (take_line cur))).
 Proof.
-  induction n as [|n IH]; intros rest s o ln Hn Hs Ho C; [lia|].
+  induction n as [|n IH]; intros rest s o ln Hn Hs Ho; [lia|].
   set (e := line_extent rest).
   destruct (Nat.lt_ge_cases o e) as [Lt|Ge].
   - (* o in the first line *)
     rewrite (locate_in_line rest) by exact Lt. cbn [Nat.add].
     destruct (take_line_skipn rest s ltac:(fold e; lia)) as [T E]. fold e in E.
     rewrite (locate_in_line (skipn s rest)) by (rewrite E; lia). cbn [Nat.add].
-    rewrite count_lf_before_extent by (fold e; lia).
+    rewrite terms_before_in_line by (fold e; lia).
     split; [lia|]. destruct s as [|s].
     + left. cbn [skipn]. repeat split; lia.
     + right. rewrite Nat.sub_diag, !Nat.sub_0_r. repeat split; try lia. exact T.
@@ -131,15 +224,14 @@ Proof.
     + (* the window starts in a later line *)
       replace (skipn s rest) with (skipn (s - e) rest')
         by (unfold rest'; rewrite <- skipn_add; f_equal; lia).
-      specialize (IH rest' (s - e)%nat (o - e)%nat (ln + 1) ltac:(lia) ltac:(lia) ltac:(lia)
-                    (crlf_only_skipn e rest C)).
+      specialize (IH rest' (s - e)%nat (o - e)%nat (ln + 1) ltac:(lia) ltac:(lia) ltac:(lia)).
       replace (o - e - (s - e))%nat with (o - s)%nat in IH by lia.
       pose proof (locate_k_le rest' (ln + 1) rest' 0 (o - e)) as Kl.
       destruct (locate (ln + 1) rest' 0 rest' (o - e)) as [[L cur] k]. cbn [snd] in Kl.
       destruct (locate 1 (skipn (s - e) rest') 0 (skipn (s - e) rest') (o - s)) as [[L' cur'] k'].
       destruct IH as [A B]. split.
-      * replace s with (e + (s - e))%nat at 1 by lia. rewrite firstn_add, count_lf_app.
-        pose proof (count_lf_extent rest C El) as Q. fold e in Q. fold rest'. rewrite Q. lia.
+      * replace s with (e + (s - e))%nat at 1 by lia. rewrite terms_before_add.
+        pose proof (terms_before_extent rest El) as Q. fold e in Q. fold rest'. rewrite Q. lia.
       * destruct B as [(B1 & B2 & B3)|(B1 & B2 & B3 & B4)]; [left|right].
         -- repeat split; try assumption; lia.
         -- replace (s - (o - k))%nat with (s - e - (o - e - k))%nat by lia.
@@ -156,14 +248,11 @@ Proof.
       pose proof (locate_ln_shift rest' 1 1 rest' 0 (o - e)) as Sh2.
       pose proof (locate_k_le rest' 1 rest' 0 (o - e)) as Kl.
       destruct (locate 1 rest' 0 rest' (o - e)) as [[L0 cur0] k0]. cbn [snd] in Kl.
-      rewrite Sh, Sh2. rewrite count_lf_before_extent by (fold e; lia).
+      rewrite Sh, Sh2. rewrite terms_before_in_line by (fold e; lia).
       split; [lia|]. left. repeat split; lia.
 Qed.
 
 (* ---- window end --------------------------------------------------------------------------------------------- *)
-Lemma starts_lf_firstn : forall m r, (1 <= m)%nat -> starts_lf (firstn m r) = starts_lf r.
-Proof. intros m r H. destruct m as [|m]; [lia|]. destruct r; reflexivity. Qed.
-
 Lemma locate_0 : forall c ln cur k, locate ln cur k c 0 = (ln, cur, k).
 Proof. destruct c; reflexivity. Qed.
 
@@ -278,16 +367,15 @@ Variable swidth : list N -> Z.
 
 (* the line number seen through any window that contains the offending byte *)
 Lemma glbo_window_line : forall c s m o, (o < length c)%nat -> (s <= o)%nat -> (o - s < m)%nat ->
-  crlf_only c = true ->
   snd (fst (getLineByOffset swidth (firstn m (skipn s c)) (Z.of_nat (o - s) + 1))) =
-  spec_line c o - count_lf (firstn s c).
+  spec_line c o - terms_before c s.
 Proof.
-  intros c s m o Ho Hs Hm C. unfold getLineByOffset.
+  intros c s m o Ho Hs Hm. unfold getLineByOffset.
   set (x := skipn s c). assert (Lx : length x = (length c - s)%nat) by (unfold x; apply skipn_length).
   replace (Z.of_nat (o - s) + 1) with (0 + Z.of_nat (o - s) + 1) by lia.
   rewrite loop_in_range by (rewrite ?firstn_length; lia). change (0 + 1) with 1.
   pose proof (locate_firstn x 1 x 0 m (o - s) Hm ltac:(lia)) as F. cbn [Nat.add] in F. rewrite F.
-  pose proof (locate_window (length c) c s o 1 (le_n _) Hs Ho C) as W. fold x in W.
+  pose proof (locate_window (length c) c s o 1 (le_n _) Hs Ho) as W. fold x in W.
   unfold spec_line. destruct (locate 1 c 0 c o) as [[L cur] k].
   destruct (locate 1 x 0 x (o - s)) as [[L' cur'] k']. destruct W as [W _].
   destruct (glbo_post swidth (take_line (firstn (k' + (m - (o - s))) cur')) (Z.of_nat k' + 1)).
@@ -296,17 +384,17 @@ Qed.
 
 (* the whole report seen through a window with enough room on both sides *)
 Lemma glbo_window : forall c s m o, (o < length c)%nat -> (s <= o)%nat ->
-  (s = 0 \/ s + 52 <= o)%nat -> (o - s + 64 <= m)%nat -> crlf_only c = true ->
+  (s = 0 \/ s + 52 <= o)%nat -> (o - s + 64 <= m)%nat ->
   getLineByOffset swidth (firstn m (skipn s c)) (Z.of_nat (o - s) + 1) =
-  let '(ls, L, col) := getLineByOffset swidth c (Z.of_nat o + 1) in (ls, L - count_lf (firstn s c), col).
+  let '(ls, L, col) := getLineByOffset swidth c (Z.of_nat o + 1) in (ls, L - terms_before c s, col).
 Proof.
-  intros c s m o Ho Hs Hd Hm C. unfold getLineByOffset.
+  intros c s m o Ho Hs Hd Hm. unfold getLineByOffset.
   set (x := skipn s c). assert (Lx : length x = (length c - s)%nat) by (unfold x; apply skipn_length).
   replace (Z.of_nat (o - s) + 1) with (0 + Z.of_nat (o - s) + 1) by lia.
   replace (Z.of_nat o + 1) with (0 + Z.of_nat o + 1) by lia.
   rewrite !loop_in_range by (rewrite ?firstn_length; lia). change (0 + 1) with 1.
   pose proof (locate_firstn x 1 x 0 m (o - s) ltac:(lia) ltac:(lia)) as F. cbn [Nat.add] in F. rewrite F.
-  pose proof (locate_window (length c) c s o 1 (le_n _) Hs Ho C) as W. fold x in W.
+  pose proof (locate_window (length c) c s o 1 (le_n _) Hs Ho) as W. fold x in W.
   pose proof (locate_k_content (length c) c o 1 (le_n _) Ho) as Kc.
   pose proof (locate_k_le c 1 c 0 o) as Kl.
   destruct (locate 1 c 0 c o) as [[L cur] k]. cbn [snd] in Kl.
@@ -334,31 +422,42 @@ Qed.
 (* ---- seekable path ------------------------------------------------------------------------------------------------ *)
 Lemma seek_loop_spec : forall fuel rest off line, 1 <= off <= zlen rest -> (length rest < fuel)%nat ->
   exists s : nat, Z.of_nat s < off /\
-    seek_loop fuel rest off line = (skipn s rest, off - Z.of_nat s, line + count_lf (firstn s rest)) /\
+    seek_loop fuel rest off line = (skipn s rest, off - Z.of_nat s, line + terms_before rest s) /\
     off - Z.of_nat s <= 12288 /\ (s = 0%nat \/ 4096 <= off - Z.of_nat s).
 Proof.
   induction fuel as [|f IH]; intros rest off line Ho Hf; [lia|].
-  cbn [seek_loop]. change (bufSize * 3 / 4) with 12288. change (bufSize / 4) with 4096. unfold bufSize.
+  unfold seek_loop. cbn [seek_loop_g]. fold (seek_loop f).
+  change (bufSize * 3 / 4) with 12288. change (bufSize / 4) with 4096. unfold bufSize.
   destruct (Z.ltb_spec 12288 off) as [C|C].
   - set (lim := Z.min 16384 (off - 4096)).
     assert (Ll : 8193 <= lim <= off - 4096) by (unfold lim; lia).
     unfold zlen in Ho.
-    assert (Lc : zlen (ztake lim rest) = lim).
-    { unfold zlen, ztake. rewrite firstn_length. lia. }
-    rewrite Lc. destruct (Z.eqb_spec lim 0) as [Z0|_]; [lia|].
-    destruct (IH (zdrop lim rest) (off - lim) (line + count_lf (ztake lim rest))) as (s' & S1 & S2 & S3 & S4).
+    set (chunk := ztake lim rest).
+    assert (Lc : zlen chunk = lim).
+    { unfold chunk, zlen, ztake. rewrite firstn_length. lia. }
+    unfold drop_len, dropped_lines.
+    destruct (keep_cr_ok (zlen chunk) chunk ltac:(unfold zlen; lia)) as (K1 & K2 & K3).
+    set (n := keep_cr (zlen chunk) chunk) in *. rewrite Lc in K1.
+    destruct (Z.eqb_spec n 0) as [Z0|_]; [lia|].
+    assert (Hc : ztake n chunk = firstn (Z.to_nat n) rest).
+    { unfold chunk, ztake. rewrite firstn_firstn. f_equal. lia. }
+    assert (Hd : countNewlines (ztake n chunk) = terms_before rest (Z.to_nat n)).
+    { rewrite Hc. apply dropped_terms.
+      rewrite <- (firstn_skipn (Z.to_nat lim) rest) at 1. apply K3. }
+    rewrite Hd.
+    destruct (IH (zdrop n rest) (off - n) (line + terms_before rest (Z.to_nat n))) as (s' & S1 & S2 & S3 & S4).
     + unfold zlen, zdrop. rewrite skipn_length. lia.
     + unfold zdrop. rewrite skipn_length. lia.
-    + exists (Z.to_nat lim + s')%nat. rewrite S2. split; [lia|]. split.
-      * unfold zdrop, ztake. rewrite skipn_add, firstn_add, count_lf_app. f_equal; [f_equal; lia|lia].
+    + exists (Z.to_nat n + s')%nat. rewrite S2. split; [lia|]. split.
+      * unfold zdrop. rewrite skipn_add, terms_before_add. f_equal; [f_equal; lia|lia].
       * split; [lia|]. right. lia.
-  - exists 0%nat. cbn [skipn firstn count_lf]. repeat split; try lia. f_equal; [f_equal|]; lia.
+  - exists 0%nat. rewrite terms_before_0. cbn [skipn]. repeat split; try lia. f_equal; [f_equal|]; lia.
 Qed.
 
-Theorem seek_window_correct : forall c E, 1 <= E <= zlen c -> crlf_only c = true ->
+Theorem seek_window_correct : forall c E, 1 <= E <= zlen c ->
   report_of swidth (seek_report c (Some E)) = getLineByOffset swidth c E.
 Proof.
-  intros c E HE C. unfold seek_report.
+  intros c E HE. unfold seek_report, seek_report_g. fold seek_loop.
   destruct (seek_loop_spec (S (length c)) c E 0 HE ltac:(lia)) as (s & S1 & S2 & S3 & S4).
   rewrite S2. unfold report_of.
   set (o := Z.to_nat (E - 1)). unfold zlen in HE.
@@ -370,31 +469,47 @@ Proof.
   rewrite EO. destruct (getLineByOffset swidth c (Z.of_nat o + 1)) as [[ls L] col]. f_equal. f_equal. lia.
 Qed.
 
+(* the property itself on the seekable path: the report is correct for the offending byte of the WHOLE input *)
+Theorem seek_window_pos_ok : forall c E, 1 <= E <= zlen c ->
+  pos_ok swidth c (Z.to_nat (E - 1)) (report_of swidth (seek_report c (Some E))).
+Proof.
+  intros c E HE. rewrite seek_window_correct by exact HE. unfold zlen in HE.
+  replace E with (Z.of_nat (Z.to_nat (E - 1)) + 1) at 2 by lia. apply glbo_in_range. lia.
+Qed.
+
 (* ---- non-seekable path ---------------------------------------------------------------------------------------------- *)
 Definition pinv (c : list N) (st : pstate) : Prop :=
   0 <= p_start st /\ p_rest st = skipn (Z.to_nat (p_start st)) c /\
-  p_line st = count_lf (firstn (Z.to_nat (p_start st)) c).
+  p_line st = terms_before c (Z.to_nat (p_start st)).
 
-Lemma pipe_step_inv : forall c st r p, pinv c st -> p_start st <= p ->
+Lemma pinv_init : forall c, pinv c {| p_rest := c; p_start := 0; p_line := 0 |}.
+Proof. intros c. unfold pinv. cbn [p_start p_rest p_line]. change (Z.to_nat 0) with 0%nat. rewrite terms_before_0. repeat split; lia. Qed.
+
+Lemma pipe_step_inv : forall c st r p, pinv c st -> p_start st <= p -> p <= zlen c ->
   pinv c (pipe_step st (r, p)) /\ p_start (pipe_step st (r, p)) <= p.
 Proof.
-  intros c st r p (A & B & D) Hp. unfold pipe_step. unfold bufSize.
+  intros c st r p (A & B & D) Hp Hc. unfold pipe_step, pipe_step_g. unfold bufSize.
   destruct (Z.leb_spec 16384 (r - p_start st)) as [G|G]; [|split; [repeat split; assumption|assumption]].
-  unfold pinv. cbn [p_start p_rest p_line]. set (n := p - p_start st) in *.
+  unfold pinv, drop_len, dropped_lines. cbn [p_start p_rest p_line].
+  assert (Lr : zlen (p_rest st) = zlen c - p_start st).
+  { rewrite B. unfold zlen in *. rewrite skipn_length. lia. }
+  destruct (keep_cr_ok (p - p_start st) (p_rest st) ltac:(lia)) as (K1 & K2 & K3).
+  set (n := keep_cr (p - p_start st) (p_rest st)) in *.
   replace (Z.to_nat (p_start st + n)) with (Z.to_nat (p_start st) + Z.to_nat n)%nat by lia.
   split; [|lia]. split; [lia|]. split.
   - unfold zdrop. rewrite B, skipn_add. reflexivity.
-  - unfold ztake. rewrite B, D, firstn_add, count_lf_app. reflexivity.
+  - unfold ztake. rewrite dropped_terms by (specialize (K3 []); now rewrite app_nil_r in K3).
+    rewrite B, D, terms_before_add. reflexivity.
 Qed.
 
-Lemma pipe_fold_inv : forall c E steps st lo_r lo_p, pinv c st -> p_start st <= lo_p -> lo_p < E ->
+Lemma pipe_fold_inv : forall c E steps st lo_r lo_p, pinv c st -> p_start st <= lo_p -> lo_p < E -> E <= zlen c ->
   steps_okb lo_r lo_p E steps = true ->
   pinv c (fold_left pipe_step steps st) /\ p_start (fold_left pipe_step steps st) < E.
 Proof.
-  induction steps as [|[r p] t IH]; intros st lo_r lo_p I Hs Hl Hk; [cbn; split; [assumption|lia]|].
+  induction steps as [|[r p] t IH]; intros st lo_r lo_p I Hs Hl HE Hk; [cbn; split; [assumption|lia]|].
   cbn [steps_okb] in Hk. repeat (apply andb_true_iff in Hk; destruct Hk as [Hk ?]).
   apply Z.leb_le in H1. apply Z.ltb_lt in H0.
-  destruct (pipe_step_inv c st r p I ltac:(lia)) as [I' S'].
+  destruct (pipe_step_inv c st r p I ltac:(lia) ltac:(lia)) as [I' S'].
   cbn [fold_left]. apply (IH _ r p); assumption.
 Qed.
 
@@ -406,27 +521,27 @@ Proof.
   apply Z.leb_le in H, H0, H1.
   destruct (pipe_fold_inv c E steps {| p_rest := c; p_start := 0; p_line := 0 |} 0 0) as [I S];
     try assumption; try lia.
-  - repeat split; cbn; lia.
+  - apply pinv_init.
   - cbn; lia.
-  - unfold pipe_run. split; [exact I|]. split; [exact S|]. split; lia.
+  - unfold pipe_run, pipe_run_g. split; [exact I|]. split; [exact S|]. split; lia.
 Qed.
 
 (* for EVERY behaviour of the decoder: the offending byte is never dropped, the line number is right, the
    excerpt and caret are getLineByOffset's on the kept part of the input *)
 Theorem pipe_window_kept : forall c steps rerr E,
-  chunking_ok c steps rerr E -> crlf_only c = true ->
+  chunking_ok c steps rerr E ->
   let start := p_start (pipe_run c steps) in
   let '(ex, line, col) := report_of swidth (pipe_report c steps rerr (Some E)) in
   0 <= start < E /\ line = spec_line c (Z.to_nat (E - 1)) /\
   (ex, col) = (let '(ex', _, col') := getLineByOffset swidth (ztake (rerr - start) (zdrop start c)) (E - start)
                in (ex', col')).
 Proof.
-  intros c steps rerr E Hc C start.
+  intros c steps rerr E Hc start.
   destruct (pipe_run_inv c steps rerr E Hc) as ((I1 & I2 & I3) & Hs & Hr & HE). fold start in I1, I2, I3, Hs.
-  unfold zlen in Hr. unfold pipe_report. fold start.
+  unfold zlen in Hr. unfold pipe_report, pipe_report_g. fold (pipe_run c steps). fold start.
   unfold report_of. rewrite I2, I3. unfold zdrop.
   set (s := Z.to_nat start) in *. set (o := Z.to_nat (E - 1)).
-  pose proof (glbo_window_line c s (Z.to_nat (rerr - start)) o ltac:(lia) ltac:(lia) ltac:(lia) C) as WL.
+  pose proof (glbo_window_line c s (Z.to_nat (rerr - start)) o ltac:(lia) ltac:(lia) ltac:(lia)) as WL.
   replace (Z.of_nat (o - s) + 1) with (E - start) in WL by lia. unfold ztake.
   destruct (getLineByOffset swidth (firstn (Z.to_nat (rerr - start)) (skipn s c)) (E - start)) as [[ex l] col].
   cbn [fst snd] in WL. split; [lia|]. split; [lia|reflexivity].
@@ -436,14 +551,14 @@ Qed.
    the beginning or >= 52 bytes before the offending byte, and >= 64 bytes after the offending byte have been
    read (or the input ends before that) *)
 Theorem pipe_window_exact : forall c steps rerr E,
-  chunking_ok c steps rerr E -> crlf_only c = true ->
+  chunking_ok c steps rerr E ->
   let start := p_start (pipe_run c steps) in
   (start = 0 \/ start + 52 <= E - 1) -> (E - 1 + 64 <= rerr \/ rerr = zlen c) ->
   report_of swidth (pipe_report c steps rerr (Some E)) = getLineByOffset swidth c E.
 Proof.
-  intros c steps rerr E Hc C start Hd Hm.
+  intros c steps rerr E Hc start Hd Hm.
   destruct (pipe_run_inv c steps rerr E Hc) as ((I1 & I2 & I3) & Hs & Hr & HE). fold start in I1, I2, I3, Hs.
-  unfold zlen in Hr, Hm. unfold pipe_report. fold start.
+  unfold zlen in Hr, Hm. unfold pipe_report, pipe_report_g. fold (pipe_run c steps). fold start.
   unfold report_of. rewrite I2, I3.
   set (s := Z.to_nat start) in *. set (o := Z.to_nat (E - 1)).
   assert (EO : E = Z.of_nat o + 1) by (unfold o; lia).
@@ -454,7 +569,7 @@ Proof.
     rewrite !firstn_all2; [reflexivity| |]; rewrite skipn_length; unfold m; lia. }
   assert (G : forall m', (o - s + 64 <= m')%nat ->
      (let '(linestr, line, column) := getLineByOffset swidth (firstn m' (skipn s c)) (Z.of_nat (o - s) + 1) in
-      (linestr, line + count_lf (firstn s c), column)) = getLineByOffset swidth c E).
+      (linestr, line + terms_before c s, column)) = getLineByOffset swidth c E).
   { intros m' Hm'. rewrite glbo_window; try assumption; try lia.
     rewrite EO. destruct (getLineByOffset swidth c (Z.of_nat o + 1)) as [[ls L] col]. f_equal. f_equal. lia. }
   destruct W as [W|W]; [rewrite W|]; apply G; lia.
@@ -462,14 +577,14 @@ Qed.
 
 (* ---- unexpected EOF: the offending position is the end of the input -------------------------------------------- *)
 (* getLineByOffset on the tail from byte s, asked for the position after the end *)
-Lemma glbo_window_eof_line : forall c s, (s < length c)%nat -> crlf_only c = true ->
+Lemma glbo_window_eof_line : forall c s, (s < length c)%nat ->
   snd (fst (getLineByOffset swidth (skipn s c) (zlen (skipn s c) + 1))) =
-  spec_line c (length c - 1) - count_lf (firstn s c).
+  spec_line c (length c - 1) - terms_before c s.
 Proof.
-  intros c s Hs C. unfold getLineByOffset.
+  intros c s Hs. unfold getLineByOffset.
   set (x := skipn s c). assert (Lx : length x = (length c - s)%nat) by (unfold x; apply skipn_length).
   rewrite loop_past_end_ne by (unfold zlen; lia). change (0 + 1) with 1.
-  pose proof (locate_window (length c) c s (length c - 1) 1 (le_n _) ltac:(lia) ltac:(lia) C) as W. fold x in W.
+  pose proof (locate_window (length c) c s (length c - 1) 1 (le_n _) ltac:(lia) ltac:(lia)) as W. fold x in W.
   replace (length c - 1 - s)%nat with (length x - 1)%nat in W by lia.
   unfold spec_line. destruct (locate 1 c 0 c (length c - 1)) as [[L cur] k].
   destruct (locate 1 x 0 x (length x - 1)) as [[L' cur'] k']. destruct W as [W _].
@@ -477,15 +592,14 @@ Proof.
 Qed.
 
 Lemma glbo_window_eof : forall c s, (s < length c)%nat -> (s = 0 \/ s + 53 <= length c)%nat ->
-  crlf_only c = true ->
   getLineByOffset swidth (skipn s c) (zlen (skipn s c) + 1) =
-  let '(ls, L, col) := getLineByOffset swidth c (zlen c + 1) in (ls, L - count_lf (firstn s c), col).
+  let '(ls, L, col) := getLineByOffset swidth c (zlen c + 1) in (ls, L - terms_before c s, col).
 Proof.
-  intros c s Hs Hd C. unfold getLineByOffset.
+  intros c s Hs Hd. unfold getLineByOffset.
   set (x := skipn s c). assert (Lx : length x = (length c - s)%nat) by (unfold x; apply skipn_length).
   rewrite !loop_past_end_ne by (unfold zlen; lia). change (0 + 1) with 1.
   set (o := (length c - 1)%nat).
-  pose proof (locate_window (length c) c s o 1 (le_n _) ltac:(unfold o; lia) ltac:(unfold o; lia) C) as W. fold x in W.
+  pose proof (locate_window (length c) c s o 1 (le_n _) ltac:(unfold o; lia) ltac:(unfold o; lia)) as W. fold x in W.
   pose proof (locate_k_content (length c) c o 1 (le_n _) ltac:(unfold o; lia)) as Kc.
   pose proof (locate_k_le c 1 c 0 o) as Kl.
   replace (o - s)%nat with (length x - 1)%nat in W by (unfold o; lia).
@@ -509,12 +623,12 @@ Proof.
   rewrite P. destruct (post_n swidth lc (length lc)) as [ex col]. f_equal. f_equal. lia.
 Qed.
 
-Theorem seek_window_eof_correct : forall c, crlf_only c = true ->
+Theorem seek_window_eof_correct : forall c,
   report_of swidth (seek_report c None) = getLineByOffset swidth c (zlen c + 1).
 Proof.
-  intros c C. destruct c as [|b0 r0] eqn:Ec; [vm_compute; reflexivity|]. rewrite <- Ec in *.
+  intros c. destruct c as [|b0 r0] eqn:Ec; [vm_compute; reflexivity|]. rewrite <- Ec in *.
   assert (Hl : 1 <= zlen c) by (rewrite Ec; unfold zlen; cbn [length]; lia).
-  unfold seek_report.
+  unfold seek_report, seek_report_g. fold seek_loop.
   destruct (seek_loop_spec (S (length c)) c (zlen c) 0 ltac:(lia) ltac:(lia)) as (s & S1 & S2 & S3 & S4).
   rewrite S2. unfold report_of. unfold zlen in *.
   assert (F : ztake bufSize (skipn s c) = skipn s c).
@@ -528,39 +642,41 @@ Qed.
 Definition chunking_eof_ok (c : list N) (steps : list (Z * Z)) : Prop :=
   steps_okb 0 0 (zlen c) steps && (fst (last steps (0, 0)) <=? zlen c) && (1 <=? zlen c) = true.
 
-Theorem pipe_window_eof_kept : forall c steps, chunking_eof_ok c steps -> crlf_only c = true ->
+Theorem pipe_window_eof_kept : forall c steps, chunking_eof_ok c steps ->
   let start := p_start (pipe_run c steps) in
   let '(ex, line, col) := report_of swidth (pipe_report c steps (zlen c) None) in
   0 <= start < zlen c /\ line = spec_line c (length c - 1) /\
   (ex, col) = (let '(ex', _, col') := getLineByOffset swidth (zdrop start c) (zlen (zdrop start c) + 1)
                in (ex', col')).
 Proof.
-  intros c steps Hc C start. unfold chunking_eof_ok in Hc.
+  intros c steps Hc start. unfold chunking_eof_ok in Hc.
   repeat (apply andb_true_iff in Hc; destruct Hc as [Hc ?]). apply Z.leb_le in H, H0.
   destruct (pipe_fold_inv c (zlen c) steps {| p_rest := c; p_start := 0; p_line := 0 |} 0 0) as [(I1 & I2 & I3) Hs];
-    try assumption; try (cbn; lia); [repeat split; cbn; lia|].
-  fold (pipe_run c steps) in I1, I2, I3, Hs. fold start in I1, I2, I3, Hs.
-  unfold pipe_report. fold start. unfold report_of. rewrite I2, I3. unfold zdrop.
+    try assumption; try (cbn; lia); try apply pinv_init.
+  change (fold_left pipe_step steps {| p_rest := c; p_start := 0; p_line := 0 |}) with (pipe_run c steps) in I1, I2, I3, Hs.
+  fold start in I1, I2, I3, Hs.
+  unfold pipe_report, pipe_report_g. fold (pipe_run c steps). fold start. unfold report_of. rewrite I2, I3. unfold zdrop.
   set (s := Z.to_nat start) in *. unfold zlen in *.
   assert (F : ztake (Z.of_nat (length c) - start) (skipn s c) = skipn s c).
   { unfold ztake. apply firstn_all2. rewrite skipn_length. lia. }
   rewrite F. fold (zlen (skipn s c)).
-  pose proof (glbo_window_eof_line c s ltac:(lia) C) as WL.
+  pose proof (glbo_window_eof_line c s ltac:(lia)) as WL.
   destruct (getLineByOffset swidth (skipn s c) (zlen (skipn s c) + 1)) as [[ex l] col].
   cbn [fst snd] in WL. split; [lia|]. split; [lia|reflexivity].
 Qed.
 
-Theorem pipe_window_eof_exact : forall c steps, chunking_eof_ok c steps -> crlf_only c = true ->
+Theorem pipe_window_eof_exact : forall c steps, chunking_eof_ok c steps ->
   let start := p_start (pipe_run c steps) in
   (start = 0 \/ start + 53 <= zlen c) ->
   report_of swidth (pipe_report c steps (zlen c) None) = getLineByOffset swidth c (zlen c + 1).
 Proof.
-  intros c steps Hc C start Hd. unfold chunking_eof_ok in Hc.
+  intros c steps Hc start Hd. unfold chunking_eof_ok in Hc.
   repeat (apply andb_true_iff in Hc; destruct Hc as [Hc ?]). apply Z.leb_le in H, H0.
   destruct (pipe_fold_inv c (zlen c) steps {| p_rest := c; p_start := 0; p_line := 0 |} 0 0) as [(I1 & I2 & I3) Hs];
-    try assumption; try (cbn; lia); [repeat split; cbn; lia|].
-  fold (pipe_run c steps) in I1, I2, I3, Hs. fold start in I1, I2, I3, Hs.
-  unfold pipe_report. fold start. unfold report_of. rewrite I2, I3.
+    try assumption; try (cbn; lia); try apply pinv_init.
+  change (fold_left pipe_step steps {| p_rest := c; p_start := 0; p_line := 0 |}) with (pipe_run c steps) in I1, I2, I3, Hs.
+  fold start in I1, I2, I3, Hs.
+  unfold pipe_report, pipe_report_g. fold (pipe_run c steps). fold start. unfold report_of. rewrite I2, I3.
   set (s := Z.to_nat start) in *. unfold zlen in *.
   assert (F : ztake (Z.of_nat (length c) - start) (skipn s c) = skipn s c).
   { unfold ztake. apply firstn_all2. rewrite skipn_length. lia. }
